@@ -287,6 +287,17 @@ def deep_random(kind):
                     g = _rand_tree2(rnd, 2, D_TERM22)
                     out.append({'fam': 'afftree', 'k': 2, 'q': 1, 'mode': 'arith', 'lhs': _script_of(f), 'rhs': _script_of(g),
                                 'op': rnd.choice(['add', 'sub', 'mul']), 'aff': NOAFF})
+            elif kind == 'eliminate' and len(out) < 4:
+                # combs: a chain of n decisions x <= j (j = 1..n) along label 1 after x <= 0 at the root: every label-0 side is infeasible,
+                # so one elimination run finds n infeasible nodes (more than any buffer of the implementation holds at once)
+                n_comb = [17, 20, 24, 33][len(out)]
+                def comb(j):
+                    if j > n_comb:
+                        return ('L', D_TERM22[0])
+                    return ('D', _aff([[1, 0]], [j]), [('L', D_TERM22[1 + j % 2]), comb(j + 1)])
+                t = ('D', _aff([[1, 0]], [0]), [('L', D_TERM22[3]), comb(1)])
+                out.append({'fam': 'afftree', 'k': 2, 'q': 1, 'mode': 'history', 'lhs': _script_of(t),
+                            'steps': [{'op': 'eliminate', 'rhs': [], 'aff': NOAFF}], 'faults': [], 'all': True})
             elif kind == 'eliminate':
                 t = _rand_tree2(rnd, 4, D_TERM22, pmiss=0.1, pleaf=0.15)
                 steps = [{'op': 'eliminate', 'rhs': [], 'aff': NOAFF}]
